@@ -78,6 +78,7 @@ class LifecycleMonitor(Monitor):
         self.orders = {}
         self.pending_req = None
         self.removed_exempt = set()
+        self.live = hasattr(run, "exchange")  # World B: an order is acknowledged by the order stream or by the response
 
     def on_status_before(self, order, prev, new):
         self._caller = caller_name()
@@ -104,6 +105,12 @@ class LifecycleMonitor(Monitor):
                 continue
             m = o.size_matched
             if abs(m - m0) > 1e-9:
+                if self.live and m > m0:
+                    # live: the response completed the order before the order stream conveyed its last fill;
+                    # the local view catching up with the exchange is not a change of the bet
+                    self.res.probes["c03.live.matched_caught_up_after_completion"] += 1
+                    self.completed_at[vid] = m
+                    continue
                 if self._void_or_rescale(o):
                     self.removed_exempt.add(vid)
                     continue
@@ -122,6 +129,9 @@ class LifecycleMonitor(Monitor):
     def on_update_end(self, mid, j, mb):
         self._matched_constant("update_end")
 
+    def on_step_end(self):
+        self._matched_constant("handler_step_end")
+
     # requests: guards
     def on_request_before(self, kind, txn, order, a, k):
         self.pending_req = None
@@ -139,17 +149,21 @@ class LifecycleMonitor(Monitor):
             self.res.probes["c03.illegal_request_attempted.%s" % st0] += 1
             if exc is None and res is not False:
                 self.violate(self.P, "C03.guard", "%s-accepted-on-%s" % (kind.lower(), st0), order=order._vid, bet_id=order.bet_id, type=order.order_type.ORDER_TYPE.name)
-        if res is True and nfl > 0:
+        if res is True and nfl > 0 and not self.live:
             self.violate(self.P, "C03.one-in-flight", "%s-accepted-while-operation-outstanding" % kind.lower(), order=order._vid, outstanding=nfl)
 
     def on_package(self, pkg):
         for o in pkg._orders:
             n = self.inflight.get(o._vid, 0) + 1
             self.inflight[o._vid] = n
-            if n > 1:
+            if n > 1 and not self.live:
                 self.violate(self.P, "C03.one-in-flight", "two-packages-outstanding:%s" % pkg.package_type.name, order=o._vid, outstanding=n)
 
     def on_exec_after(self, pkg):
+        seen = self.__dict__.setdefault("_retries", {})
+        if getattr(pkg, "_retry_count", 0) > seen.get(id(pkg), 0):
+            seen[id(pkg)] = pkg._retry_count
+            return  # the package was re-submitted (retry): it is still outstanding
         for o in pkg._orders:
             self.inflight[o._vid] = max(0, self.inflight.get(o._vid, 0) - 1)
         # a response applied after the order's state was changed by a market event since the request
@@ -296,6 +310,12 @@ class AccountingMonitor(Monitor):
         if market is not None and mb.status != "CLOSED":
             self.audit(market, "update_end")
 
+    def on_step_end(self):
+        # live world: after every event handled by the main loop (no pool task is mid-handler: one thread runs at a time)
+        for market in self.run.fw.markets:
+            if not market.closed:
+                self.audit(market, "handler_step_end")
+
     def on_exec_after(self, pkg):
         for o in pkg._orders:
             resp = o.responses.place_response
@@ -425,6 +445,10 @@ class BlotterMonitor(Monitor):
             self.audit(market, "update_end")
             if mb.status == "CLOSED" and any(not o.complete for o in market.blotter):
                 self.res.probes["c15.closure_with_live_orders"] += 1
+
+    def on_step_end(self):
+        for market in self.run.fw.markets:
+            self.audit(market, "handler_step_end")
 
     def on_exec_after(self, pkg):
         market = self.run.fw.markets.markets.get(pkg.market_id)
